@@ -110,9 +110,25 @@ def install_time_shims(shim, modules=None):
     saved = [(m, m.time) for m in targets]
     for m in targets:
         m.time = shim
+    extra = []
+    if modules is None:
+        # Third-party code under the client reads the wall clock as well: aiohttp's connector stamps pooled connections with time.monotonic()
+        # (keep-alive expiry after 15 s) and elastic-transport's node pool stamps dead nodes with time.time(). Left on the real clock, a
+        # simulated race that takes longer than 15 REAL seconds starts to close and re-create pooled connections at moments that depend on the
+        # speed of the machine, which re-orders same-instant events of the clients of a worker: the trace of a case would no longer be a
+        # function of its seed. On the virtual clock a connection expires after 15 virtual seconds of idleness, as in a real race.
+        import aiohttp.connector
+        import elastic_transport._node_pool
+
+        extra.append((aiohttp.connector, "monotonic", aiohttp.connector.monotonic))
+        aiohttp.connector.monotonic = shim.monotonic
+        extra.append((elastic_transport._node_pool, "time", elastic_transport._node_pool.time))
+        elastic_transport._node_pool.time = shim
 
     def undo():
         for m, t in saved:
             m.time = t
+        for m, name, orig in extra:
+            setattr(m, name, orig)
 
     return undo
